@@ -546,6 +546,8 @@ class MCSRules(LockModel):
             if n and ok_all and e is cands[-1][0] and e is not arr:
                 wrong_obj = (e, k)     # the last read before the grant certifies X = SIX = 0, but of another object
         key = '%s (join) granted only after X and SIX of the joined group are certified clear' % name
+        if cert is None and not any(True for _ in self.envs(p, ctx, [cur])):
+            return      # the path condition is contradictory over the field abstraction: not a path of the program
         if cert is None and wrong_obj is not None:
             self.sink.bad('MCS.WAIT', key, '%s:%s' % (fn['file'], wrong_obj[0]['line']),
                           'the read the grant waits on certifies X=0 and SIX=0 of %s (%s), which is neither the lock word while the group is the tail nor the '
@@ -643,7 +645,11 @@ class MCSRules(LockModel):
     # ------------------------------------------------------------------ release
     def role_release(self, fn, mode, paths):
         name = short(fn['name'])
-        own = S('p:' + fn['params'][0]['name']) if fn['params'] else None
+        # the own queue node: a pointer parameter, or the address of a reference parameter
+        own = None
+        if fn['params']:
+            prm = fn['params'][0]
+            own = S('&' + prm['name']) if prm.get('isref') else S('p:' + prm['name'])
         if own is None:
             self.sink.unsup('MCS.CLR', name, fn['file'], 'release function without node parameter')
             return
